@@ -16,10 +16,10 @@ RULE = ("a case is (assignment, spelling): the assignment's defined metrics writ
         "non-trivial = the spelling differs from the representative and its full observation record was compared.")
 
 
-def observe(ver, s):
+def observe(ver, s, reverse=False):
     L = lib()
     o = L.CLS[ver](s)
-    return o, obs.record(ver, o)
+    return o, obs.record(ver, o, reverse)
 
 
 def check_pair(P, ver, rep, s, kind="?"):
@@ -31,7 +31,8 @@ def check_pair(P, ver, rep, s, kind="?"):
                     error=repr(r))
         return
     o0, r0 = r
-    ok, r = obs.call(observe, ver, s)
+    # the twin's accessors are read in the opposite order: "unchanged" holds whatever was read first
+    ok, r = obs.call(observe, ver, s, True)
     if not ok:
         P.violation("construct", "C05:v%s:exception:%s" % (ver, obs.exc_name(r)), {"ver": ver, "rep": rep, "spelling": s},
                     error=repr(r))
